@@ -288,7 +288,22 @@ def run(ctx, replay=None):
         multi = list(vlib.tlc_printed(out, "SIM"))
         keep1 = len(singles) if (thorough and not big) else min(len(singles), 2500 if thorough else 400)
         keepm = min(len(multi), 4000 if thorough else 150)
-        picks = (singles if keep1 == len(singles) else by_kind(singles, keep1, rng)) + (multi if keepm == len(multi) else rng.sample(multi, keepm))
+        if keep1 == len(singles):
+            picks1 = singles
+        else:
+            # always taken: the document ends at every point of the first start tag of each distinct element name, and the root object
+            # (first <object>) gets every attribute-list template; the rest is a seeded sample spread over the mutation kinds
+            first, root = {}, None
+            for i, e in enumerate(d.elems):
+                first.setdefault(e["name"], i + 1)
+                if root is None and e["name"] == "object":
+                    root = i + 1
+            firsts = set(first.values())
+            prio = [r for r in singles if (r[0][0] == "cutat" and r[0][1] in firsts) or (r[0][0] == "retype" and r[0][1] == root and (thorough or r[0][2] % 3 == ctx.seed % 3))
+                    or r[0][0] in ("doctype", "setversion", "truncate")]
+            rest = [r for r in singles if r not in prio] if len(singles) < 20000 else singles
+            picks1 = prio + by_kind(rest, keep1, rng)
+        picks = picks1 + (multi if keepm == len(multi) else rng.sample(multi, keepm))
         ctx.extra["recipes_" + name] = {"single_enumerated": len(singles), "single_used": keep1, "multi_used": keepm, "elements": n}
         nrec += len(picks)
         for r in picks:
